@@ -31,19 +31,29 @@ func VP_C17_Add() {
 	if nested && zzvp.Choose(2) == 1 {
 		ignLine = dir + "/"
 	}
+	// a second top-level file that is never added by name and that no rule excludes: a neighbour of the ignored files
+	extra := vpComp("xt", 1)
+	zzvp.Assume(extra != plain && extra != dir && extra != top && extra != withExt && !(len(extra) > len(ext) && extra[len(extra)-len(ext)-1:] == "."+ext))
+	zzvp.WriteFile(w+"/"+extra, []byte("x"))
 	zzvp.WriteFile(w+"/"+plain, []byte("p"))
 	zzvp.WriteFile(w+"/"+fileInDir, []byte("d"))
 	zzvp.WriteFile(w+"/"+withExt, []byte("e"))
 	ignoreDir, ignoreExt := false, false
-	switch zzvp.Choose(4) {
+	// entries are separated by a line break, or by a blank line (which is no entry and excludes nothing)
+	sep := "\n"
+	kind := zzvp.Choose(4)
+	if kind != 0 && zzvp.Choose(2) == 1 {
+		sep = "\n\n"
+	}
+	switch kind {
 	case 1:
-		zzvp.WriteFile(w+"/.goitignore", []byte(ignLine+"\n"))
+		zzvp.WriteFile(w+"/.goitignore", []byte(ignLine+sep))
 		ignoreDir = true
 	case 2:
-		zzvp.WriteFile(w+"/.goitignore", []byte("*."+ext+"\n"))
+		zzvp.WriteFile(w+"/.goitignore", []byte("*."+ext+sep))
 		ignoreExt = true
 	case 3:
-		zzvp.WriteFile(w+"/.goitignore", []byte(ignLine+"\n*."+ext+"\n"))
+		zzvp.WriteFile(w+"/.goitignore", []byte(ignLine+sep+"*."+ext+"\n"))
 		ignoreDir, ignoreExt = true, true
 	}
 	hasIgnoreFile := ignoreDir || ignoreExt
@@ -114,6 +124,7 @@ func VP_C17_Add() {
 		zzvp.Assert(listed(withExt), "a file whose extension is not ignored is visible")
 	}
 	zzvp.Assert(listed(plain), "a path that no rule excludes is never hidden")
+	zzvp.Assert(listed(extra), "a path that no rule excludes is never hidden, whatever ignored files stand next to it")
 	_ = hasIgnoreFile
 	_ = g
 	zzvp.Done()
